@@ -207,7 +207,7 @@ def run(ctx):
             check_propagation(ctx, ck, "C20-R1", body, i, name, forb,
                               lambda n: is_driver_call(n) or n in MAPPER_CALLS or n in drv_funcs)
         ck.count("bodies_walked")
-    ck.floor("C20-R1", "driver-call-sites", nsites, 8)
+    ck.floor("C20-R1", "driver-call-sites", nsites, 5)
     # the loop's signature must be able to return the error
     rty = loop.ltypes.get(0, "")
     ck.ob("C20-R1", LOOP, "returns-result", rty.startswith("std::result::Result<"), detail="return type " + rty)
@@ -261,7 +261,7 @@ def run(ctx):
         # a conversion that disappeared is not a C20 violation (it makes the loop stricter); note it
         if missing:
             ck.note("%s: conversions no longer present: %s" % (fn, sorted(missing)))
-    ck.floor("C20-R3", "conversions", nconv, 6)
+    ck.floor("C20-R3", "conversions", nconv, 4)
 
     # low-level reader/writer: nix read/write results propagate
     low = ["dev_input_rw::DevInputWriter::send", "dev_input_rw::DevInputReader::next",
@@ -273,7 +273,7 @@ def run(ctx):
             if name in ("nix::unistd::read", "nix::unistd::write"):
                 nlow += 1
                 check_propagation(ctx, ck, "C20-R3", body, i, name, set(), lambda n: n in ("nix::unistd::write",))
-    ck.floor("C20-R3", "raw-io-calls", nlow, 3)
+    ck.floor("C20-R3", "raw-io-calls", nlow, 2)
 
 
 def _cond_sig(conds, R):
